@@ -395,6 +395,14 @@ def check(ctx):
     for rule, key, ok, where, what, detail in sub.got:
         if rule == 'R9.2-operation' and key.startswith('General'):
             ctx.ob('R2.1-users', key, ok, where, what + "; the right-hand side is evaluate(...) in the plain slot and volume_evaluate(..., volume, ...) in the volume slot", detail)
+    # a name that is neither a species nor a declared parameter is registered as a parameter without a value; what rejects it when the
+    # model is built is the NaN sentinel and the initialisation check (C03 R3.5) - re-emitted here
+    from . import c03
+    sub = SubCtx(ctx)
+    c03.check_init(sub)
+    for rule, key, ok, where, what, detail in sub.got:
+        if rule == 'R3.5-initialisation-check':
+            ctx.ob('R2.3-rejection', 'undefined-name/%s' % key, ok, where, what, detail)
     ctx.floor('R2.1-users', 7)
     ctx.floor('R2.1-node-semantics', 28)
     ctx.floor('R2.2-translation', 9)
